@@ -305,6 +305,23 @@ pp_done:
 		KSI_Signature_free(out); KSI_SignatureBuilder_free(b); KSI_AggregationHashChain_free(ch); KSI_HashChainLinkList_free(ll); KSI_DataHash_free(in); KSI_Integer_free(alg);
 		return rc;
 	}
+	if (!strcmp(c0, "sigbuild")) {
+		/* sigbuild <c> <src> <dst>: re-assemble the signature in slot src from its parts with an empty signature builder; a failing close is repeated once on the same builder */
+		KSI_CTX *c = ctxs[atoi(tok[1])]; KSI_Signature *src = sigs[atoi(tok[2])], *out = NULL; int d = atoi(tok[3]); KSI_SignatureBuilder *b = NULL; int rc, rc2 = -1; size_t i;
+		rc = KSI_SignatureBuilder_open(c, &b); if (rc) { kx_out(" stage=open"); return rc; }
+		for (i = 0; i < KSI_AggregationHashChainList_length(src->aggregationChainList); i++) { KSI_AggregationHashChain *ch = NULL;
+			KSI_AggregationHashChainList_elementAt(src->aggregationChainList, i, &ch); rc = KSI_SignatureBuilder_addAggregationChain(b, ch); if (rc) { kx_out(" stage=addchain"); goto sb_done; } }
+		if (src->calendarChain) { rc = KSI_SignatureBuilder_setCalendarHashChain(b, src->calendarChain); if (rc) { kx_out(" stage=setcal"); goto sb_done; } }
+		if (src->calendarAuthRec) { rc = KSI_SignatureBuilder_setCalendarAuthRecord(b, src->calendarAuthRec); if (rc) { kx_out(" stage=setauth"); goto sb_done; } }
+		if (src->publication) { rc = KSI_SignatureBuilder_setPublication(b, src->publication); if (rc) { kx_out(" stage=setpub"); goto sb_done; } }
+		if (src->rfc3161) { rc = KSI_SignatureBuilder_setRFC3161(b, src->rfc3161); if (rc) { kx_out(" stage=setrfc"); goto sb_done; } }
+		rc = KSI_SignatureBuilder_close(b, 0, &out);
+		if (rc != KSI_OK) { rc2 = KSI_SignatureBuilder_close(b, 0, &out); kx_out(" retry=%d", rc2); }
+		if (out) { out_sig_bytes("sig", out); KSI_Signature_free(sigs[d]); sigs[d] = out; }
+sb_done:
+		KSI_SignatureBuilder_free(b);
+		return rc;
+	}
 	if (!strcmp(c0, "siginfo")) {
 		KSI_Signature *s = sigs[atoi(tok[1])]; KSI_DataHash *h = NULL; KSI_Integer *t = NULL; const unsigned char *imp; size_t il; int rc;
 		rc = KSI_Signature_getDocumentHash(s, &h); if (rc == KSI_OK && h) { KSI_DataHash_getImprint(h, &imp, &il); kx_outhex("doc", imp, il); } else kx_out(" doc=ERR%d", rc);
